@@ -483,6 +483,10 @@ impl Samples {
 pub fn install_quiet_panic_hook() {
     std::panic::set_hook(Box::new(|info| {
         let msg = panic_message_from_info(info);
+        // panics raised by the harness's own code are machinery faults: always visible
+        if info.location().is_some_and(|l| l.file().starts_with("src/")) {
+            eprintln!("harness panic: {msg}");
+        }
         LAST_PANIC.with(|c| *c.borrow_mut() = Some(msg));
     }));
 }
